@@ -39,6 +39,8 @@ def lit(leaf):
     if leaf[0] == "form":
         return leaf[3]
     k, v = leaf
+    if k == "opt":                 # an int-or-nil literal whose variable (in the unfolded rendering) is declared `int?`
+        return "nil" if v is None else str(v)
     if k in ("int", "intlit-wide"):
         return str(v)
     if k == "bigint":
@@ -86,6 +88,8 @@ def decl(nm, leaf, other_kind="int"):
     if leaf[0] == "form":
         leaf = (leaf[1], leaf[2])
     k, v = leaf
+    if k == "opt":
+        return f"{nm}: int? = {lit(leaf)}"
     if k == "nil":
         return f"{nm}: {TYPE[other_kind]}? = nil"
     return f"{nm} = {lit(leaf)}"
@@ -117,6 +121,46 @@ def same_lines(a, b):
                 continue
         return False
     return True
+
+
+def has_opt(t):
+    if t[0] == "L":
+        return t[1][0] == "opt"
+    return any(has_opt(x) for x in t[1:] if isinstance(x, tuple))
+
+
+def opt_eval(t):
+    """meaning of a tree over or / get / == nil / + -, as a typed-print line, or "FAIL" """
+    def ev(t):
+        if t[0] == "L":
+            return None if t[1][1] is None else t[1][1]
+        if t[0] == "or":
+            a = ev(t[1])
+            return a if a is not None else ev(t[2])
+        if t[0] == "get":
+            a = ev(t[1])
+            if a is None:
+                raise ArithmeticError
+            return a
+        if t[0] == "bin":
+            a, b = ev(t[2]), ev(t[3])
+            if t[1] == "==":
+                return a == b
+            if t[1] == "!=":
+                return a != b
+            if a is None or b is None:
+                raise ArithmeticError
+            return a + b if t[1] == "+" else a - b
+        raise ValueError(t)
+    try:
+        v = ev(t)
+    except ArithmeticError:
+        return "FAIL"
+    if v is None:
+        return "Nil:nil"
+    if isinstance(v, bool):
+        return "Bool:" + ("true" if v else "false")
+    return f"Int:{v}"
 
 
 class C06(Check):
@@ -198,7 +242,33 @@ class C06(Check):
                 for a, b in itertools.product(SMALL, SMALL):
                     yield ("bin", op, ("neg", ("L", a)), ("neg", ("L", b)))
 
-        ls = [("L0-depth1", d1()), ("Lf-literal-spellings", forms()), ("Lm-most-negative-values-and-negative-pairs", extremes())]
+        def optionals():
+            # trees over `or` / `get` / `== nil` whose leaves are nil or present: every nesting of two `or`s, with the result printed,
+            # unwrapped, or compared with nil (the folder must pick the operand the run-time `or` picks)
+            O = [("L", ("opt", None)), ("L", ("opt", 4)), ("L", ("opt", 5))]
+            P = [("L", ("int", 7))]
+            for a, b in itertools.product(O, O + P):
+                t = ("or", a, b)
+                yield t
+                yield ("bin", "==", t, ("L", ("opt", None)))
+                if b[1][0] == "int":
+                    yield ("bin", "+", t, ("L", ("int", 1)))
+                else:
+                    yield ("get", t)
+            for a, b, c in itertools.product(O, O, O + P):
+                for t in (("or", ("or", a, b), c), ("or", a, ("or", b, c))):
+                    yield t
+                    yield ("bin", "==", t, ("L", ("opt", None)))
+                    if c[1][0] == "int":
+                        yield ("bin", "-", t, ("L", ("int", 1)))
+                    else:
+                        yield ("get", t)
+            for a in O:
+                yield ("get", a)
+                yield ("bin", "==", a, ("L", ("opt", None)))
+                yield ("bin", "!=", ("L", ("opt", None)), a)
+
+        ls = [("L0-depth1", d1()), ("Lo-optional-trees-or-get-nil", optionals()), ("Lf-literal-spellings", forms()), ("Lm-most-negative-values-and-negative-pairs", extremes())]
         if tier == "quick":
             def d2q():
                 for i, t in enumerate(d2()):
@@ -242,6 +312,29 @@ class C06(Check):
             return "runfail"
         sf, su = st(rf), st(ru)
         nontrivial = True
+        if has_opt(case):
+            # optional trees: the unfolded rendering is ill-typed for some of them by the language's own rules (the fallback of `or` must not be
+            # optional unless the primary is the literal nil), so the folded program is judged against the meaning of or / get / == nil itself
+            want = opt_eval(case)
+            if sf == "compiler-panic":
+                bad("compiler-panic", f"compiler panics on the literal expression: {driver.panic_message(rf)}")
+            elif sf == "rejected":
+                if su == "ok":
+                    bad("folded-rejects-valid", f"compiler rejects the literal expression but over variables it evaluates to {ru.lines()}")
+                nontrivial = su == "ok"
+            elif want == "FAIL":
+                if sf == "ok":
+                    bad("folded-accepts-failing", f"`get` of nil must stop the program; the literal expression yields {rf.lines()}")
+            elif sf == "runfail":
+                bad("folded-runtime-failure", f"expected {want}; the folded program fails at run time ({driver.classify_failure(rf)})")
+            else:
+                if rf.lines()[:1] != [want]:
+                    bad("value-differs", f"the literal expression means {want}; folded prints {rf.lines()[:1]}")
+                if su == "ok" and not same_lines(rf.lines(), ru.lines()):
+                    bad("value-differs", f"folded prints {rf.lines()} unfolded prints {ru.lines()}")
+                elif su == "runfail":
+                    bad("folded-accepts-failing", f"literal expression yields {rf.lines()} but fails at run time over variables ({driver.classify_failure(ru)})")
+            return {"outcome": f"opt-{sf}-{su}" + ("-DIFF" if viol else ""), "viol": viol, "nontrivial": nontrivial, "tags": [case[0], "opt"]}
         if su == "rejected":
             # the type checker rejects the expression over variables: not a literal-evaluation question
             if sf not in ("rejected", "compiler-panic"):
